@@ -123,6 +123,8 @@ def main(tier, seed):
                         if not d[3].startswith(fexp + ":") and not d[3].startswith("../q.exp:") and not d[3].startswith("q.exp:"):
                             if re.match(r"^\S+:\d+: ", d[3]):
                                 what = "diagnostic attributed to another file: %s" % d[3]
+                    if what is None and "only_codes" in expect and sorted({d[1] for d in errs}) != sorted(expect["only_codes"]):
+                        what = "%s: diagnostics %s printed, only PE%03d applies: %s" % (desc, sorted({d[1] for d in errs}), expect["code"], [d[3][-90:] for d in errs][:3])
                     if what is None and "line" in expect and not any(abs(d[2] - expect["line"]) <= 1 for d in hit):
                         what = "diagnostic for %s attributed to line %s, the token is on line %d" % (desc, [d[2] for d in hit], expect["line"])
             if what:
